@@ -434,3 +434,36 @@ pub fn run(tier: Tier) -> i32 {
     drop(scratch);
     rep.finish(coverage)
 }
+
+/// `./run replay <file>` for kind "file_tree": recreate the recorded files and compare again
+pub fn replay(v: &serde_json::Value) -> i32 {
+    let scratch = Scratch::new("c11replay");
+    let root = scratch.path.join("tree");
+    if let Some(files) = v["files"].as_object() {
+        for (rel, text) in files {
+            let p = root.join(rel);
+            if let Some(d) = p.parent() {
+                let _ = std::fs::create_dir_all(d);
+            }
+            // absolute paths recorded inside the files refer to the original scratch root
+            let _ = std::fs::write(&p, text.as_str().unwrap_or(""));
+            println!("--- {} ---\n{}", rel, text.as_str().unwrap_or(""));
+        }
+    }
+    let _ = std::fs::create_dir_all(root.join("ext"));
+    let main = root.join(v["main"].as_str().unwrap_or("main.asm"));
+    let mut paths = BTreeSet::new();
+    paths.insert(root.join("ext"));
+    let o1 = sut::build_file(main, paths);
+    let o2 = sut::build_str(v["pasted_program"].as_str().unwrap_or(""));
+    println!("--- pasted program ---\n{}", v["pasted_program"].as_str().unwrap_or(""));
+    println!("recorded build_file : {}", v["observed"]);
+    println!("now build_file      : {}", o1.to_json());
+    println!("now pasted build_str: {}", o2.to_json());
+    println!("(note: absolute .includepath / .include paths inside the recorded files point into the original scratch directory)");
+    let same = match (&o1, &o2) {
+        (Outcome::Ok(a), Outcome::Ok(b)) => a.code == b.code && a.eeprom == b.eeprom && a.ram_filling == b.ram_filling,
+        _ => false,
+    };
+    if same { 0 } else { 1 }
+}
